@@ -29,6 +29,7 @@ ASSUMPTIONS = [
     "kinds F2, FL, xF3, 2x g1 as defined in docs/theory/intro.rst; formulas of Schienbein et al. (F2, FL, F3) and Bluemlein-Tkabladze/Accardi-Melnitchouk (g1); mode 2 = published approximate formulas for F2, xF3 and lower-end evaluation of the integrands for FL, g1",
     "at operator level a structure function between nodes is its node values interpolated with the basis (this is the discretisation the operator format implies); node weights by reference quadrature on the reference basis",
     "grids G9 (log, degree 3) and L7 (linear, degree 2); M in {0, 1e-4, 0.938, 2.5}; Q2 in {2, 4, 30, 1e3}",
+    "scale variations off in the main lattice; an options sub-lattice keeps them on (all scale-variation keys compared) and uses positron / neutrino NC / antineutrino / positron CC beams, polarisation, iron and fractional targets",
     "gL, g4 have no TMC (explicit NotImplementedError since fix e64a7f73) and polarised CC does not exist: not part of the lattice",
 ]
 BUDGET = {"quick": 1500, "thorough": 7200}
@@ -56,6 +57,13 @@ def states(tier, seed):
             out.append({"kind": k, "heavyness": h, "process": p, "scheme": sc, "pto": pto, "M": M, "Q2": q2, "grid": g})
         for k, p in itertools.product(["F2", "FL", "F3", "g1"], ["NC"]):
             out.append({"kind": k, "heavyness": "total", "process": p, "scheme": "ZM-VFNS", "pto": 2, "M": 0.938, "Q2": 4.0, "grid": "G9"})
+    # options: scale-variation keys kept (every order key must obey the formula), non-canonical projectiles, polarised beam, nuclear target
+    for k in ["F2", "FL", "F3", "g1"]:
+        out.append({"kind": k, "heavyness": "total", "process": "NC", "scheme": "ZM-VFNS", "pto": 1, "M": 0.938, "Q2": 4.0, "grid": "G9", "sv": True, "projectile": "positron", "obscard": {"PolarizationDIS": -0.6, "PropagatorCorrection": 0.05}})
+        out.append({"kind": k, "heavyness": "charm", "process": "NC", "scheme": "FFNS3", "pto": 1, "M": 1.5, "Q2": 30.0, "grid": "G9", "projectile": "neutrino", "target": "iron"})
+        if k != "g1":
+            out.append({"kind": k, "heavyness": "total", "process": "CC", "scheme": "ZM-VFNS", "pto": 1, "M": 0.938, "Q2": 4.0, "grid": "G9", "sv": True, "projectile": "antineutrino", "target": "iron"})
+            out.append({"kind": k, "heavyness": "light", "process": "CC", "scheme": "FFNS3", "pto": 0, "M": 2.5, "Q2": 4.0, "grid": "L7", "projectile": "positron", "target": {"Z": 0.3, "A": 1.0}})
     return out
 
 
@@ -109,7 +117,11 @@ def execute(st):
     basis = ref_basis.RefBasis(g, d, lg)
     good, rejected = xlattice(st)
     name = cards.obsname(kind, h)
-    base = {"scheme": st["scheme"], "process": st["process"], "pto": st["pto"], "grid": st["grid"], "theory": {"MP": st["M"], "RenScaleVar": False, "FactScaleVar": False}}
+    sv = bool(st.get("sv"))
+    base = {"scheme": st["scheme"], "process": st["process"], "pto": st["pto"], "grid": st["grid"], "theory": {"MP": st["M"], "RenScaleVar": sv, "FactScaleVar": sv}}
+    for kk in ("projectile", "target", "obscard"):
+        if kk in st:
+            base[kk] = st[kk]
     # raw run: all needed kinds at nodes and at xi(x)
     xis = [ref_tmc.kin(x, st["Q2"], st["M"])[2] for _, x in good]
     rawpts = list(g) + xis
